@@ -26,7 +26,10 @@ impl StructType {
 
 impl Hash for StructType {
     fn hash<H: std::hash::Hasher>(&self, state: &mut H) {
-        self.0.keys().collect::<Box<[&Arc<str>]>>().hash(state)
+        // the iteration order of a HashMap differs between equal maps
+        let mut keys = self.0.keys().collect::<Box<[&Arc<str>]>>();
+        keys.sort();
+        keys.hash(state)
     }
 }
 
